@@ -11,6 +11,7 @@ CORPUS = os.path.join(VERIF, "corpus")
 LIST = [
     ("prim_le", os.path.join(CORPUS, "prim_le.xml"), None, "quick"),
     ("prim_be", os.path.join(CORPUS, "prim_be.xml"), None, "quick"),
+    ("hdr_counts", os.path.join(CORPUS, "hdr_counts.xml"), None, "quick"),
 ]
 
 
